@@ -55,6 +55,9 @@ func genScript(r *gen.Rand, kg *mavlh.KeyGen) []step {
 					V: types.Encode(&ticket.Ticket{TicketId: id, Status: st})})
 			}
 		}
+		// every main-line block changes the state (a block that only re-writes existing values is the trigger shape
+		// of the known memTree defect; that shape is exercised by hunt(), not by the differential stream)
+		kvs = append(kvs, mavlh.KV{K: []byte(fmt.Sprintf("~m%03d", i)), V: r.Bytes(r.Range(1, 8))})
 		h := int64(i + 1)
 		if r.Chance(1, 8) {
 			h = int64(r.Intn(40))
@@ -62,6 +65,16 @@ func genScript(r *gen.Rand, kg *mavlh.KeyGen) []step {
 		s[i] = step{parent: p, height: h, kvs: kvs}
 	}
 	return s
+}
+
+var noiseCounter int
+
+// noiseBatch: random writes plus one key never used before, so that an unrelated update always yields a root that
+// no committed tree has (an uncommitted update whose root is already committed is the trigger shape of the known
+// memTree defect: exercised by hunt(), kept out of the differential stream).
+func noiseBatch(r *gen.Rand, kg *mavlh.KeyGen, n int) []mavlh.KV {
+	noiseCounter++
+	return append(kg.Batch(n), mavlh.KV{K: []byte(fmt.Sprintf("~n%06d", noiseCounter)), V: r.Bytes(r.Range(1, 6))})
 }
 
 // noise performs updates unrelated to the main line on any root known so far.
@@ -73,24 +86,12 @@ func noise(e *mavlh.Eng, r *gen.Rand, kg *mavlh.KeyGen, known [][]byte, pending 
 		}
 		switch r.Pick(4, 2, 1, 2, 2) {
 		case 0: // pending update, later rolled back / committed / left pending
-			root, st := e.MemSet(parent, int64(r.Intn(60)), kg.Batch(r.Range(1, 20)))
+			root, st := e.MemSet(parent, int64(r.Intn(60)), noiseBatch(r, kg, r.Range(1, 20)))
 			if len(st) > 5 && st[:5] == "root " {
-				same := bytes.Equal(root, parent)
-				for _, k := range known {
-					same = same || bytes.Equal(root, k)
-				}
-				if same {
-					// an update that re-writes existing values yields a root that is already committed. Leaving it
-					// uncommitted is the trigger shape of the known memTree defect (hunted separately, see hunt());
-					// here it is committed at once so that the differential stream stays inside the modelled behaviour.
-					e.Commit(root)
-					out.Stat("noise_same_root_committed", 1)
-				} else {
-					*pending = append(*pending, root)
-				}
+				*pending = append(*pending, root)
 			}
 		case 1: // unrelated direct set (side branch)
-			e.Set(parent, int64(r.Intn(60)), kg.Batch(r.Range(1, 20)))
+			e.Set(parent, int64(r.Intn(60)), noiseBatch(r, kg, r.Range(1, 20)))
 		case 2: // empty pending update
 			e.MemSet(parent, int64(r.Intn(60)), nil)
 			if r.Bool() {
@@ -258,7 +259,11 @@ func huntScenario(e *mavlh.Eng, r *gen.Rand, cfg mavlh.Cfg, base [][]mavlh.KV, k
 			case 0:
 				e.Rollback(root)
 			case 2:
-				e.Commit(root)
+				if cst := e.Commit(root); cst == "panic" {
+					out.Pred(fmt.Sprintf("C02|Store.Commit|panic-committing-pending-%s", []string{"update-of-same-content", "no-op-update"}[shape]),
+						fmt.Sprintf("cfg=%s h1=%d h2=%d", cfg.Bits(), h1, h2))
+					out.Stat("hunt_failures", 1)
+				}
 			}
 		}
 	}
@@ -296,7 +301,7 @@ func huntScenario(e *mavlh.Eng, r *gen.Rand, cfg mavlh.Cfg, base [][]mavlh.KV, k
 }
 
 func hunt(e *mavlh.Eng, r *gen.Rand) {
-	n := gen.Scale(20, 1000)
+	n := gen.Scale(40, 1000)
 	type scen struct {
 		cfg        mavlh.Cfg
 		base       [][]mavlh.KV
@@ -390,7 +395,7 @@ func main() {
 		hunt(e, r)
 		return
 	}
-	n := gen.Scale(12, 200)
+	n := gen.Scale(24, 200)
 	for i := 0; i < n; i++ {
 		history(e, r)
 	}
